@@ -23,6 +23,17 @@ package hevc
 //@   requires h != nil
 //@   ensures swOKi(sw)
 //@   ensures[C02] result == nil ==> adv(sw, 23 + arrSum(h.NaluArrays, len(h.NaluArrays)))
-//@   assigns sw.(*bits.FixedSliceWriter).off, sw.(*bits.FixedSliceWriter).accError, sw.(*bits.FixedSliceWriter).n, sw.(*bits.FixedSliceWriter).v, sw.(*bits.FixedSliceWriter).buf[:]
+//@   assigns sw.(*bits.FixedSliceWriter).off, sw.(*bits.FixedSliceWriter).accError, sw.(*bits.FixedSliceWriter).n, sw.(*bits.FixedSliceWriter).v, sw.(*bits.FixedSliceWriter).buf[:], ghost(sw).tr
 //@   loop 1 invariant adv(sw, 23 + arrSum(h.NaluArrays, idx(1)))
 //@   loop 2 invariant adv(sw, 23 + arrSum(h.NaluArrays, idx(1)) + 3 + naluSum(h.NaluArrays[idx(1)].Nalus, idx(2)))
+
+// io.Writer side (called by mp4.(*HvcCBox).Encode): EncodeSW into a fresh writer of Size() bytes, then one Write.
+// ASSUMPTION (assumes): a record of 2^48 bytes or more cannot be allocated (same bound as the box wrappers in package mp4).
+//@ func (*DecConfRec).EncodeSW
+//@   ensures result == nil ==> sw.(*bits.FixedSliceWriter).accError == nil
+//@   ensures sw.(*bits.FixedSliceWriter).accError == nil ==> old(sw.(*bits.FixedSliceWriter).accError) == nil
+//@ func (*DecConfRec).Encode
+//@   requires w != nil && h != nil
+//@   assumes h.Size() <= 1<<48
+//@   ensures[C02] result == nil ==> ghost(w).wlen == old(ghost(w).wlen) + int(h.Size())
+//@   assigns ghost(w).wlen, ghost(w).wz, ghost(w).wlegal, ghost(w).wesc, ghost(w).wtight, ghost(w).pay, ghost(w).plen, ghost(w).wdata, ghost(w).tr
